@@ -307,6 +307,18 @@ def _run_hypothesis(prop, leg, tier, seed, n, stats, known):
             spec, new = holder["last"]
             stats.failures.append({"leg": leg.name, "spec": spec, "clauses": new, "origin": "generated+shrunk"})
             suppressed.update(c for c, _ in new)
+        except Exception as e:
+            # Hypothesis' shrinker occasionally fails internally (e.g. on text strategies whose alphabet depends on
+            # an earlier draw); a failing case found before that is still a real failing case
+            if isinstance(e, hypothesis.errors.Flaky):
+                spec, new = holder.get("last", (None, [("flaky", repr(e)[:300])]))
+                stats.failures.append({"leg": leg.name, "spec": spec, "clauses": [("flaky:" + new[0][0], new[0][1])], "origin": "flaky"})
+                return
+            if "last" not in holder:
+                raise
+            spec, new = holder["last"]
+            stats.failures.append({"leg": leg.name, "spec": spec, "clauses": new, "origin": "generated (shrinking aborted: %s)" % repr(e)[:80]})
+            suppressed.update(c for c, _ in new)
         except hypothesis.errors.Flaky as e:
             spec, new = holder.get("last", (None, [("flaky", repr(e)[:300])]))
             stats.failures.append({"leg": leg.name, "spec": spec, "clauses": [("flaky:" + new[0][0], new[0][1])], "origin": "flaky"})
